@@ -42,7 +42,8 @@ ASSUMPTIONS = [
 RULE = ("exhaustive histories up to length 4/5 over {new Emp, new Mgr, new Org, drop, sweep, query} + fixed families "
         "(re-evaluated query objects, diamond hierarchy, clear, classes defined in the middle of the history after "
         "their ancestors were queried, temporaries created and discarded back to back, lazily consumed evaluations advanced "
-        "one next() at a time with instances of the queried class / a subclass created or dropped in between) + random histories of 4-18 "
+        "one next() at a time with instances of the queried class / a subclass created or dropped in between, container-like "
+        "Symbols that are falsy while empty) + random histories of 4-18 "
         "operations over 9 classes plus classes defined on the way, relations, explicit-domain queries; non-trivial = at least one query returned at least one instance; "
         "distinct by case text")
 
@@ -101,6 +102,15 @@ def generate(rng, tier, n):
             cases.append(_case([["churn", 0, k, c], ["new", 50, c], ["query", c], ["churn", 60, k, c], ["query", 0],
                                 ["drop", 50], ["churn", 80, k, c], ["new", 95, c], ["query", c]],
                                ("family", "churn"), "exhaustive"))
+    # container-like Symbols (class 9 defines __len__): alive but falsy while empty, truthiness changing between queries
+    for T in (9, 0):
+        cases.append(_case([["new", 0, 9], ["query", T], ["query", T]], ("family", "falsy"), "exhaustive"))
+        cases.append(_case([["new", 0, 9], ["new", 1, 9], ["fill", 1], ["query", T], ["empty", 1], ["fill", 0], ["query", T],
+                            ["fill", 1], ["query", T], ["drop", 0], ["query", T]], ("family", "falsy"), "exhaustive"))
+        cases.append(_case([["new", 0, 9], ["new", 1, 2], ["mkq", 1, T], ["evalq", 1], ["dropq", 1], ["sweep"], ["query", T],
+                            ["fill", 0], ["query", T]], ("family", "falsy"), "exhaustive"))
+        cases.append(_case([["new", 0, 9], ["fill", 0], ["query", T], ["empty", 0], ["qstart", 1, T], ["qnext", 1],
+                            ["qnext", 1], ["query", T]], ("family", "falsy"), "exhaustive"))
     # lazily consumed evaluations: instances of the queried class / of a subclass created (or dropped) between two
     # next() calls; T walks [T] + recursive_subclasses(T) and copies a class list when it reaches the class
     for T, sub in ((2, 3), (4, 5), (4, 6), (0, 1), (0, 2), (5, 7)):
@@ -129,9 +139,9 @@ def generate(rng, tier, n):
                                 ["churn", 60, k, c], ["new", 70, c], ["query", 0], ["rel", 5, 70, 50], ["query", c]],
                                ("family", "churn"), "exhaustive"))
     for _ in range(n):
-        g = _sg.Gen(rng, classes=rng.choice([(1, 2, 3), (1, 2, 3), (0, 1, 2, 3, 4, 5, 6, 7), (2, 3), (4, 5, 6, 7)]))
+        g = _sg.Gen(rng, classes=rng.choice([(1, 2, 3), (1, 2, 3), (0, 1, 2, 3, 4, 5, 6, 7, 9), (2, 3, 9), (4, 5, 6, 7)]))
         ops = g.history(rng.randint(4, 18), w_query=3.0, w_clear=0.3, w_defclass=rng.choice([0.0, 0.8, 1.5]),
-                        w_churn=rng.choice([0.0, 0.0, 0.6]), w_step=rng.choice([0.0, 0.0, 3.0, 5.0]))
+                        w_churn=rng.choice([0.0, 0.0, 0.6]), w_step=rng.choice([0.0, 0.0, 3.0, 5.0]), w_bag=rng.choice([0.0, 1.0]))
         for key in g.iter_keys:
             ops += [["qnext", key]] * rng.randint(0, 6)
         ops.append(["query", rng.choice([0, 2])])
